@@ -46,6 +46,10 @@ Definition parse_raw (raw : bytes) : result script :=
   '(cs, count) <- parse_loop (length raw) raw 0 (zlen raw) [] ;;
   Ok {| s_cmds := cs; s_raw := if count =? zlen raw then None else Some raw |}.
 
+(* kept as an alias: Helper.read_varstr itself now models the OverflowError that
+   BytesIO.read(n) raises for n > sys.maxsize = 2^63 - 1 *)
+Definition read_varstr_py (s : bytes) : result (bytes * bytes) := read_varstr s.
+
 (* Script.parse(stream) *)
 Definition parse_script (s : bytes) : result (script * bytes) :=
   '(raw, rest) <- read_varstr s ;;
@@ -69,7 +73,7 @@ Fixpoint ser_cmds (cs : list cmd) : result bytes :=
   end.
 Definition raw_serialize (sc : script) : result bytes :=
   match s_raw sc with
-  | Some (_ :: _ as raw) => Ok raw          (* `if self.raw:` — an empty raw is falsy *)
+  | Some ((_ :: _) as raw) => Ok raw        (* `if self.raw:` — an empty raw is falsy *)
   | _ => ser_cmds (s_cmds sc)
   end.
 Definition serialize_script (sc : script) : result bytes :=
